@@ -203,10 +203,14 @@ def case_adaptive(ctx, index, rng: random.Random):
         if d == 1:
             if hi == lo:
                 kw.pop("weights", None)
+                if rng.random() < 0.5:
+                    kw["dtype"] = rng.choice(["float64", "float32", "int32"])  # an empty operand still takes part in the type promotion
                 return physt.h1(None, "fixed_width", bin_width=widths[0], **kw)
             return physt.h1(rows[lo:hi, 0].copy(), "fixed_width", bin_width=widths[0], **kw)
         if hi == lo:
             kw.pop("weights", None)
+            if rng.random() < 0.5:
+                kw["dtype"] = rng.choice(["float64", "float32", "int32"])
             return physt.h(None, "fixed_width", bin_width=list(widths), dim=d, **kw)
         return physt.h(rows[lo:hi].copy(), "fixed_width", bin_width=list(widths), **kw)
 
